@@ -72,7 +72,9 @@ def product_helper(a, b, out, func):
     res = func._implementation(np.asarray(a), np.asarray(b), out=np.asarray(out))
     if getattr(out, "units", None) is not None:
         out.units = prod_units
-    return unyt_array(res, prod_units, bypass_validation=True)
+    # with a 0-d buffer NumPy returns a scalar, not the buffer
+    ret_cls = unyt_array if np.ndim(res) else unyt_quantity
+    return ret_cls(res, prod_units, bypass_validation=True)
 
 
 @implements(np.dot)
